@@ -292,13 +292,13 @@ func (m *ldbManager) Get(identifier types.HashHeight) DB {
 		})
 	}
 
+	// deleted entries of the overlay hide the entries of the snapshot and are skipped by the delete-enabled iterator
 	u := newMergedDb([]db{
 		newMemDBInternal(),
-		newSkipDelete(
-			newMergedDb([]db{
-				rawChanges,
-				newSubDB(frontierByte, newLevelDBSnapshotWrapper(snapshot)),
-			})),
+		newMergedDb([]db{
+			rawChanges,
+			newSubDB(frontierByte, newLevelDBSnapshotWrapper(snapshot)),
+		}),
 	})
 	return enableDelete(u)
 }
